@@ -179,6 +179,8 @@ type Ex struct {
 	// resolve is a fallback for program variables (loop invariants)
 	resolve func(name string) *T
 	depth   int
+	qdepth  int
+	letCache map[string]*T
 }
 
 func (x *Ex) child() *Ex {
@@ -198,6 +200,9 @@ func (x *Ex) state() *State {
 }
 
 func (x *Ex) Bool(src string) *T {
+	if x.letCache == nil {
+		x.letCache = map[string]*T{}
+	}
 	t := x.tr(parseSpecExpr(src), sBool)
 	if t.Sort.Kind != KBool {
 		fail("expression %q is not boolean", src)
@@ -361,6 +366,15 @@ func (x *Ex) typeExpr(e ast.Expr) (*Sort, types.Type, bool) {
 		if ok1 && ok2 && kt != nil && vt != nil {
 			return sRef, types.NewMap(kt, vt), true
 		}
+	case *ast.IndexListExpr:
+		// Arr[K, V]: specification-level (SMT) array
+		if id, ok := v.X.(*ast.Ident); ok && id.Name == "Arr" && len(v.Indices) == 2 {
+			ks, _, ok1 := x.typeExpr(v.Indices[0])
+			vs, vt, ok2 := x.typeExpr(v.Indices[1])
+			if ok1 && ok2 {
+				return arrSort(ks, vs), vt, true
+			}
+		}
 	case *ast.ParenExpr:
 		return x.typeExpr(v.X)
 	case *ast.InterfaceType:
@@ -497,7 +511,21 @@ func (x *Ex) ident(name string, want *Sort) *T {
 		return t
 	}
 	if src, ok := x.lets[name]; ok {
-		return x.tr(parseSpecExpr(src), want)
+		key := name
+		if x.inOld {
+			key = "old:" + name
+		}
+		if x.letCache != nil {
+			if t, ok := x.letCache[key]; ok {
+				return t
+			}
+		}
+		t := x.tr(parseSpecExpr(src), want)
+		if x.letCache != nil && x.qdepth == 0 && t.Sort.Kind != KTuple {
+			t = x.enc.define("let$"+sanitize(name), t)
+			x.letCache[key] = t
+		}
+		return t
 	}
 	if g, ok := x.w.specs.Ghosts[name]; ok {
 		c := x.child()
@@ -872,6 +900,7 @@ func (x *Ex) call(v *ast.CallExpr, want *Sort) *T {
 			fail("bad quantifier")
 		}
 		c := x.child()
+		c.qdepth++
 		var binds []string
 		for _, f := range fl.Type.Params.List {
 			so, t, ok := x.typeExpr(f.Type)
@@ -967,6 +996,18 @@ func (x *Ex) call(v *ast.CallExpr, want *Sort) *T {
 		mt := mapOf(m)
 		k := x.tr(v.Args[1], x.enc.sortOf(mt.Key()))
 		return mapGet(x.enc, x.state(), m, k, mt)
+	case "hasArr", "valArr":
+		// the key->present / key->value arrays of a Go map object
+		argN(1)
+		m := x.tr(v.Args[0], nil)
+		mt := mapOf(m)
+		ks, vs := x.enc.sortOf(mt.Key()), x.enc.sortOf(mt.Elem())
+		if fn.Name == "hasArr" {
+			h := x.state().get(mapHeap(ks, vs, "has"), arrSort(sRef, arrSort(ks, sBool)))
+			return mk(sapp("select", h.S, m.S), arrSort(ks, sBool))
+		}
+		h := x.state().get(mapHeap(ks, vs, "val"), arrSort(sRef, arrSort(ks, vs)))
+		return mk(sapp("select", h.S, m.S), arrSort(ks, vs)).withGo(mt.Elem())
 	case "fresh":
 		argN(1)
 		a := x.tr(v.Args[0], nil)
@@ -1089,18 +1130,35 @@ func (x *Ex) call(v *ast.CallExpr, want *Sort) *T {
 		}
 	}
 	rs, rt := tc.typeFromString(sf.Result)
-	if sf.Body != "" {
+	if sf.Body != "" && !sf.Opaque {
 		// macro expansion with the arguments bound
 		c := x.child()
 		c.vars = map[string]*T{}
 		c.lets = nil
+		c.letCache = nil
 		c.resolve = nil
+		var binds []string
 		for i, p := range sf.Params {
-			c.vars[p.Name] = args[i]
+			a := args[i]
+			if len(a.S) > 24 && a.Sort.Kind != KTuple {
+				x.enc.fresh++
+				sym := fmt.Sprintf("m!%d", x.enc.fresh)
+				binds = append(binds, fmt.Sprintf("(%s %s)", sym, a.S))
+				b := *a
+				b.S = sym
+				a = &b
+			}
+			c.vars[p.Name] = a
 		}
 		r := c.tr(parseSpecExpr(sf.Body), rs)
 		if r.GoT == nil {
 			r = r.withGo(rt)
+		}
+		if len(binds) > 0 {
+			rr := *r
+			rr.S = "(let (" + strings.Join(binds, " ") + ") " + r.S + ")"
+			rr.Op, rr.Args = "", nil
+			return &rr
 		}
 		return r
 	}
